@@ -266,3 +266,8 @@ class PumpGate(PumpFamily):
 
 
 FAMILIES = [Gate(), Chain(), PumpGate()]
+
+# configuration file -> real start_server wiring -> request sequences (family `wiring`, harness/props/c04_wiring.py)
+from .c04_wiring import Wiring  # noqa: E402
+
+FAMILIES.append(Wiring())
